@@ -68,8 +68,15 @@ def hex_tokens(msg: str) -> list[list[int]]:
     return out[:24]
 
 
+_HEXCODE = re.compile(r"\b0x([0-9a-fA-F]{2})\b")
+_NRC_CODES = set(_NRC_NAMES.values())
+
+
 def nrc_names(msg: str) -> list[int]:
-    return sorted({_NRC_NAMES[w] for w in _WORD.findall(msg) if w in _NRC_NAMES})
+    """Response codes a record mentions: by ISO name, or as a 0x.. literal of a defined response code."""
+    named = {_NRC_NAMES[w] for w in _WORD.findall(msg) if w in _NRC_NAMES}
+    coded = {int(h, 16) for h in _HEXCODE.findall(msg)} & _NRC_CODES
+    return sorted(named | coded)
 
 
 class _Capture(logging.Handler):
